@@ -133,6 +133,8 @@ Definition P_SETATTR : nat := 2.
 Definition P_MOVE_TO : nat := 3.
 Definition P_LINKS : nat := 4.
 Definition P_ALIGNED : nat := 5.
+Definition P_REMOVE_COMPONENT : nat := 6.
+Definition P_REPLACE_COMPONENT : nat := 7.
 
 Inductive op : Type :=
 | OEval (r : req)
@@ -143,6 +145,8 @@ Inductive op : Type :=
 | OAddLink
 | ORemoveLink
 | OAligned                                                           (* the link change also changed which datasets are pixel aligned *)
+| ORemoveComponent                                                   (* Data.remove_component of an existing attribute (and of what is derived from it) *)
+| OReplaceComponent                                                  (* Data.add_component on an attribute that exists: its values are replaced *)
 | OReplaceState.                                                     (* subset.subset_state = another state object: nothing to do with the store *)
 
 (* cache-clearing policy of a mutation path: None = nothing is cleared;
@@ -207,6 +211,8 @@ Definition step (pol : policy) (fr : fresh_fn) (o : op) (w : world) (st : state)
   | OAddLink => (mkworld (w_p w) (w_d w) (S (w_l w)), clear_path pol P_LINKS [] [] st, [])
   | ORemoveLink => (mkworld (w_p w) (w_d w) (S (w_l w)), clear_path pol P_LINKS [] [] st, [])
   | OAligned => (mkworld (w_p w) (w_d w) (S (w_l w)), clear_path pol P_ALIGNED [] [] st, [])
+  | ORemoveComponent => (mkworld (w_p w) (S (w_d w)) (w_l w), clear_path pol P_REMOVE_COMPONENT [] [] st, [])
+  | OReplaceComponent => (mkworld (w_p w) (S (w_d w)) (w_l w), clear_path pol P_REPLACE_COMPONENT [] [] st, [])
   | OReplaceState => (w, st, [])
   end.
 
@@ -226,7 +232,7 @@ Definition fresh_req (fr : fresh_fn) (w : world) (r : req) : option mask :=
 Definition world_after (o : op) (w : world) : world :=
   match o with
   | OEval _ | OReplaceState => w
-  | OUpdateComponents _ _ _ | OUpdateValues _ _ _ => mkworld (w_p w) (S (w_d w)) (w_l w)
+  | OUpdateComponents _ _ _ | OUpdateValues _ _ _ | ORemoveComponent | OReplaceComponent => mkworld (w_p w) (S (w_d w)) (w_l w)
   | OMoveTo ks | OSetAttr ks => mkworld (bump_all (w_p w) ks) (w_d w) (w_l w)
   | OAddLink | ORemoveLink | OAligned => mkworld (w_p w) (w_d w) (S (w_l w))
   end.
@@ -287,6 +293,8 @@ Definition path_of (o : op) : option nat :=
   | OSetAttr _ => Some P_SETATTR
   | OAddLink | ORemoveLink => Some P_LINKS
   | OAligned => Some P_ALIGNED
+  | ORemoveComponent => Some P_REMOVE_COMPONENT
+  | OReplaceComponent => Some P_REPLACE_COMPONENT
   end.
 
 (* the policy invalidates everything, before the broadcast, on every mutation path the history uses *)
@@ -345,6 +353,8 @@ Definition dec_op (t : tree) : option op :=
   | T 7 [] => Some ORemoveLink
   | T 8 [] => Some OAligned
   | T 9 [] => Some OReplaceState
+  | T 10 [] => Some ORemoveComponent
+  | T 11 [] => Some OReplaceComponent
   | _ => None
   end.
 
@@ -371,7 +381,7 @@ Definition run_case (t : tree) : tree :=
   (* 3: the policy table as the model sees it *)
   | T 3 [T p _] =>
     match table_policy (zn p) with
-    | Some (s, b) => T 1 [leaf (nz s); leaf (of_bool b)]
+    | Some (s, b) => T 1 [leaf (nz s); leaf (of_bool b); leaf (of_bool (uncond_of (zn p)))]
     | None => T 0 []
     end
   | _ => err 2
